@@ -10,7 +10,9 @@ cp $S/zz_seeded_demo_test.go $PKGDIR/zz_seeded_demo_test.go
 go test -vet=off -count=1 -run 'Seeded' ./$PKGDIR > $S/confirm_with.log 2>&1; WITH=$?
 git stash -q; go test -vet=off -count=1 -run 'Seeded' ./$PKGDIR > $S/confirm_without.log 2>&1; WITHOUT=$?; git stash pop -q
 mv $PKGDIR/zz_seeded_demo_test.go /tmp/seed/$ID.demo.tmp
-go test -vet=off -count=1 ./... > $S/confirm_suite.log 2>&1; SUITE=$?
+mv $S /tmp/seed/$ID.SEEDED.tmp
+go test -vet=off -count=1 ./... > /tmp/seed/$ID.SEEDED.tmp/confirm_suite.log 2>&1; SUITE=$?
+mv /tmp/seed/$ID.SEEDED.tmp $S
 mv /tmp/seed/$ID.demo.tmp $PKGDIR/zz_seeded_demo_test.go
 echo "RESULT $ID demo_with_change_exit=$WITH demo_without_change_exit=$WITHOUT suite_with_change_exit=$SUITE"
 if [ $WITH -ne 0 ] && [ $WITHOUT -eq 0 ] && [ $SUITE -eq 0 ]; then
